@@ -32,6 +32,63 @@ CHECKS = {
          "property-based testing (rapid) + exhaustive tuple sweep; oracle: exact rational interval arithmetic (covering range and metre-widened covering range), error-iff rule, duality between the two directions",
          "Generated (index, zooms, base exponent, offset) tuples constructed to land in range (offsets unaligned, odd, negative, sub-metre zooms, top/bottom indices) in both directions; result must lie between the exact and the metre-widened covering range, errors exactly where the property demands; exhaustive over a small tuple space.",
          "Trusted: ref/ big.Rat arithmetic. Tuples whose intermediates overflow int64 are excluded by construction."),
+
+ "C06": ("DESIGN.md 5/C06",
+         "property-based testing (rapid) + zoom/direction sweep; oracle: validity predicate (duplicate-free, end voxels present, slab intersection test of every voxel against the segment, breadth-first 26-connectivity, no detached voxel), spatial form = same set",
+         "Generated segments sized in local voxel units (axis-parallel, diagonal, exactly through voxel corners, across ground level, at the latitude limit and lon = +-180, at the zooms where the termination thresholds switch); the result is judged by a geometric validity predicate built on the independent reference, not by one expected answer.",
+         "Trusted: ref/ voxel bounds; voxel bounds inflated by the stated float / 1e-10 truncation bands. Segments bounded to a few hundred voxels."),
+ "C07": ("DESIGN.md 5/C07",
+         "property-based testing (rapid) + exhaustive small-grid sweep; oracle: integer modular arithmetic; algebraic laws (identity, composition, inverse)",
+         "Generated IDs at all zooms with shifts up to four world widths and vertical shifts up to +-2^61; result compared as a string with modular arithmetic and with the composition / inverse laws; exhaustive over every box and shift at h <= 3.",
+         "Trusted: ref/ integer model."),
+ "C08": ("DESIGN.md 5/C08",
+         "property-based testing (rapid) + exhaustive small-grid sweep; oracle: set/multiset comprehension over the stencil of the modular-shift reference; counts, self-exclusion, symmetry",
+         "Generated voxels on grid edges and tiny grids, lists with overlapping neighbourhoods, layer counts 0..4; all four neighbourhood functions compared with the comprehension over the reference shift.",
+         "Trusted: ref/ integer model."),
+ "C09": ("DESIGN.md 5/C09",
+         "property-based testing (rapid) + zoom-pair sweep; oracle: metamorphic relations between library calls only (point lookup vs zoom-out, zoom-in/out round trip, merge of all descendants, overlap of nested IDs)",
+         "Generated points (both altitude signs, cell edges) x ordered zoom pairs per axis and boxes x zoom-in differences; the relations are exact, so any one-sided rounding difference between the four operations is reported.",
+         "No external reference. Sub-normal altitudes excluded by construction (C01 band)."),
+ "C10": ("DESIGN.md 5/C10",
+         "property-based testing (rapid) + exhaustive small-scope sweep; oracle: independent ID rendering/parsing, round trip, dyadic-box reference for the expansion",
+         "Generated ID lists with pairwise distinct components and negative indices: notation round trip element-wise, object parse/print/field order, voxel-id extraction, expansion compared as an exact set with the reference (count, duplicates, region).",
+         "Trusted: ref/ parser and integer model. Expansion bounded to |h-v| <= 5."),
+ "C11": ("DESIGN.md 5/C11",
+         "property-based testing (rapid) + exhaustive sweep of all tiles/keys at h <= 5; oracle: bit interleaving reference, round trip, zoom reference, no pair twice, echoed request fields",
+         "Generated ID lists (leading-zero quadkeys, repeated and nested IDs) x output zooms x back-conversion zooms x raw keys; pairs compared as exact sets with the reference, both directions of the key bijection, the altitude-key variant against the C12 reference in its exact regime.",
+         "Trusted: ref/ integer model. Output bounded to 2048 pairs."),
+ "C13": ("DESIGN.md 5/C13",
+         "property-based testing (rapid) + example-neighbourhood sweep; oracle: per-tile exact / metre-widened covering range (big.Rat), differential against the library's range function, all-or-nothing on range errors, reference expansion for the spatial variant",
+         "Generated tile lists (overlapping vertical ranges, nested vertical cells, other footprints / zooms, invalid z) with constructively in-range offsets; result bracketed by the reference ranges and equal to the union of the library's own per-tile range.",
+         "Trusted: ref/ big.Rat arithmetic. Bounded to 512 indices per tile."),
+ "C14": ("DESIGN.md 5/C14",
+         "property-based testing (rapid); oracle: relations to the line query, the clearance fit (maximum over all line voxels) and the N-layer neighbourhood on the same arguments; measured subset of skipped; independent WGS84 footprint-to-chord distance (rigorous lower bound)",
+         "Generated corridors (all zooms where the layer fit terminates, radii 0..2.5 voxel widths, both skip flags): every clause of the property is checked per case; a kept voxel farther than the radius is split by root cause (dependency GJK = known finding F13, otherwise violation).",
+         "Trusted: own geodetic->ECEF formulas, ref/ voxel bounds. Radius capped to a quarter of the largest distance on the row (termination of the layer fit)."),
+ "C15": ("DESIGN.md 5/C15",
+         "property-based testing (rapid) + table sweep (+ native go fuzzing of raw strings in the thorough tier); oracle: outcome classification per call (panic / missing error / result together with error)",
+         "Generated invalid arguments for 40 entry points: structurally mutated ID strings at every list position, int64 zoom arguments (near bounds first, then extremes), coordinates beyond the limits and +-Inf, nil points, unknown options, negative radii / layers, max<min heights; recovered panics of the library are violations.",
+         "Soundness notes (weaker readings) are listed in the evidence assumptions."),
+ "C16": ("DESIGN.md 5/C16",
+         "property-based testing (rapid), metamorphic: repeated calls, permuted input, duplicated input, de-duplication, input preservation",
+         "Argument lists from the generators of C03/C04/C05/C06/C08/C11/C13/C14 plus a permutation and duplication pattern; four identical calls must agree (Go re-randomises map order per range, so in-process repetition samples schedules), permuted / duplicated inputs must give the same set, inputs are compared with a deep copy.",
+         "Map iteration orders are sampled by the runtime, not enumerated (DESIGN.md 7)."),
+ "C17": ("DESIGN.md 5/C17",
+         "property-based testing (rapid) + dyadic sweep; oracle: exact rational binary-subdivision index with a stated band at cell borders, contiguity, clamping, error iff max<min",
+         "Generated voxels x subdivision zooms x height ranges (dyadic / non-dyadic, voxel inside / straddling / outside) in both directions through the public conversion functions; the returned run must be contiguous, inside 0..2^Z-1 and end at the reference cells.",
+         "Trusted: big.Rat subdivision. Run length bounded to ~4096 by construction from the reference."),
+ "C18": ("DESIGN.md 5/C18",
+         "property-based testing (rapid) + exhaustive sweep of the bundled EPSG table; oracle: closed-form spherical Mercator, round trip within 2e-10 deg, bit-identical altitude, unknown code = conversion error",
+         "Generated point lists x EPSG codes (3857 for the numeric claims, every code of the bundled table and unknown codes for the structural ones). Known finding F8 (degradation with |altitude| > 1e4 m) is excluded by its matcher and counted.",
+         "Trusted: closed forms; the table of supported codes is enumerated in the check."),
+ "C19": ("DESIGN.md 5/C19",
+         "property-based testing (rapid) of generated concurrent workloads under the Go race detector; oracle: no race report, concurrent result = sequential result, shared arguments unchanged",
+         "Generated workloads of 8..40 calls from a table of 34 closures over shared slices / objects on 2..16 goroutines, 3 rounds with a start barrier, in a -race build; the race log is polled after every workload so that a report is attributed to the shrunk workload.",
+         "Schedules are sampled by real parallel execution, not enumerated (DESIGN.md 7)."),
+ "C20": ("DESIGN.md 5/C20",
+         "property-based testing (rapid) + exhaustive small sweeps; oracle: map/set model, big-integer floor shift, binomial count and lexicographic order, direct formulas with stated float tolerances",
+         "Generated slices with frequent collisions, (index, shift) pairs without overflow, all 0<=k<=n<=12, vectors incl. parallel / opposite / nearly opposite pairs, matrices; every helper compared with its mathematical definition.",
+         "Float identities use relative tolerances derived from the conditioning of the formulas (see evidence assumptions)."),
 }
 
 NOT_YET = {
